@@ -800,9 +800,9 @@ func init() {
 		return tuple{uint64(len(b)), nilErr()}, true
 	})
 	reg("(*net.UDPConn).ReadFrom", func(m *Machine, fr *frame, fn *ssa.Function, args []value) (value, bool) {
-		// blocks until nothing else can run, then fails (socket closed)
+		// blocks until the socket is closed or nothing else can run, then fails (socket closed)
 		co := m.cur
-		if !co.idleWoken {
+		if !co.idleWoken && !m.connClosed {
 			co.status = coIdleWait
 			return blockedT{}, true
 		}
@@ -810,8 +810,16 @@ func init() {
 		return tuple{uint64(0), iface{}, m.mkError("use of closed network connection")}, true
 	})
 	reg("(*net.UDPConn).Close", func(m *Machine, fr *frame, fn *ssa.Function, args []value) (value, bool) {
+		m.connClosed = true
+		for _, co := range m.cos {
+			if co.status == coIdleWait {
+				co.idleWoken = true
+				co.status = coReady
+			}
+		}
 		return nilErr(), true
 	})
+	reg("(*net.conn).Close", intrinsicsByName["(*net.UDPConn).Close"])
 	reg("net.ParseIP", func(m *Machine, fr *frame, fn *ssa.Function, args []value) (value, bool) {
 		s, ok := args[0].(string)
 		if !ok {
